@@ -214,6 +214,15 @@ theorem C04_full_false : ¬ C04_dedup_on := by
   revert hf
   decide
 
+/-- non-vacuity of `C04_select_refines`: the F04 witness meets its hypotheses, so its loss is
+    already visible in the pure function (the penalty merge of the three rows' unions) -/
+example : pmFoldL ((overlapSplit (proxyChunks 1 200000 (f04Witness.reps.flatMap (·.chunks)))).map
+        fun row => unionFrom 0 (row.map (·.samples))) = [⟨32456, 1⟩, ⟨94057, 2⟩] := by
+  have h1 := C04_select_refines f04Witness 1 200000 (by decide) (by unfold ChunkOK; decide)
+  have h2 := C04_witness_run
+  rw [h1] at h2
+  simpa using h2
+
 /-- the witness is outside the partial statement: replica 0's chunks overlap -/
 example : ¬ DisjointCuts f04Witness := by
   intro h
